@@ -38,6 +38,25 @@ Proof.
   cbv zeta. destruct ((char_at (gtxt m 2) 0 =? 96) && mem 96 (gtxt m 3)); reflexivity.
 Qed.
 
+Lemma parse_marker_regen line : g_ListItem_parse_marker line = parse_marker line.
+Proof.
+  unfold g_ListItem_parse_marker, parse_marker. destruct (rmatch _ _ line) as [m|]; [|reflexivity].
+  cbv zeta. destruct (4 <? _); reflexivity.
+Qed.
+Lemma parse_continuation_regen line prepend : g_ListItem_parse_continuation line prepend = parse_continuation line prepend.
+Proof. reflexivity. Qed.
+Lemma list_interrupts_regen line : g_List_check_interrupts_paragraph line = list_interrupts line.
+Proof.
+  unfold g_List_check_interrupts_paragraph, list_interrupts. rewrite parse_marker_regen.
+  destruct (parse_marker line) as [[[[i p] leader] content]|]; [|reflexivity].
+  unfold is_blank. rewrite str_eqb_nil. unfold str_in. cbn [existsb]. rewrite orb_false_r, orb_assoc. reflexivity.
+Qed.
+
+Theorem list_markers_regenerated : forall line prepend,
+  g_ListItem_parse_marker line = parse_marker line /\ g_ListItem_parse_continuation line prepend = parse_continuation line prepend /\
+  g_List_check_interrupts_paragraph line = list_interrupts line.
+Proof. intros. split; [apply parse_marker_regen|]. split; [apply parse_continuation_regen|apply list_interrupts_regen]. Qed.
+
 Theorem block_starts_regenerated : forall line,
   g_Quote_start line = quote_start line /\ g_Paragraph_start line = paragraph_start line /\
   g_BlockCode_start line = blockcode_start line /\ g_Table_start line = table_start line /\
